@@ -114,7 +114,9 @@ func RunShard(prop *Prop, tier string, seed uint64, shard, of int, skip map[int]
 		}
 		st := NewStats()
 		t0 := time.Now()
+		stopWatch := runWatchdog(prop.ID, run)
 		v, herr := SafeExecute(prop, plan, st)
+		stopWatch()
 		if d := time.Since(t0); d > 2*time.Second {
 			fmt.Fprintf(os.Stderr, "slow run: %s run %d took %v (%d events)\n", prop.ID, run, d, len(plan.Events))
 		}
@@ -379,6 +381,16 @@ func RunCheck(prop *Prop, tier string, seed uint64, workers int, verifDir string
 		failing = append(failing, r.Violations...)
 		digest += r.Digest
 	}
+	for _, cp := range crashed {
+		agg.Runs++
+		agg.Events += len(cp.Events)
+		if len(samples) < 3 {
+			samples = append(samples, cp.Brief(14))
+		}
+	}
+	if samples == nil {
+		samples = []map[string]interface{}{}
+	}
 	failing = append(failing, crashed...)
 	sort.Slice(failing, func(i, j int) bool { return failing[i].Run < failing[j].Run })
 
@@ -614,7 +626,9 @@ func ReplayInProc(path string, quiet bool) int {
 		recorded = p.Violation.Oracle
 	}
 	c := p.Clone()
+	stopWatch := runWatchdog(p.Property, p.Run)
 	v, herr := SafeExecute(prop, c, NewStats())
+	stopWatch()
 	if herr != nil {
 		fmt.Fprintf(os.Stderr, "ERROR: %v\n", herr)
 		return 2
@@ -678,6 +692,8 @@ func fatalKind(stderr string) string {
 		return "out-of-memory"
 	case strings.Contains(stderr, "stack exceeds"), strings.Contains(stderr, "stack overflow"):
 		return "stack-overflow"
+	case strings.Contains(stderr, "per-run time limit"):
+		return "hang"
 	case strings.Contains(stderr, "all goroutines are asleep"):
 		return "deadlock"
 	}
@@ -776,4 +792,22 @@ func MinimiseFile(inPath, outPath string) int {
 		return 2
 	}
 	return 0
+}
+
+// runWatchdog guards one run: a library call that never returns (an endless loop in a decoder,
+// say) cannot be interrupted in-process, so the process ends itself with a message the driver's
+// crash isolation understands; the run is then re-executed alone and, if it hangs again, reported
+// as <prop>.fatal (kind "hang"). The limit is generous: ordinary runs take milliseconds.
+func runWatchdog(prop string, run int) (stop func()) {
+	limit := 300 * time.Second
+	if s := os.Getenv("VERIF_RUN_LIMIT_S"); s != "" {
+		if k, err := strconv.Atoi(s); err == nil && k > 0 {
+			limit = time.Duration(k) * time.Second
+		}
+	}
+	t := time.AfterFunc(limit, func() {
+		fmt.Fprintf(os.Stderr, "fatal error: %s run %d exceeded the per-run time limit of %v\n", prop, run, limit)
+		os.Exit(3)
+	})
+	return func() { t.Stop() }
 }
